@@ -6,9 +6,12 @@ package main
 // then judges the lines the final render is responsible for.
 
 import (
+	"encoding/hex"
+	"encoding/json"
 	"fmt"
 	"sort"
 	"strings"
+	"unicode/utf8"
 
 	"rare/cmd/helpers"
 	"rare/pkg/aggregation"
@@ -62,6 +65,50 @@ type Case struct {
 	Distract bool `json:"distract,omitempty"`
 	// magnitude / stacked laws (laws.go)
 	Vals []int64 `json:"vals,omitempty"`
+}
+
+// Samples may hold bytes that are not valid UTF-8, which encoding/json would
+// silently replace by U+FFFD: such a history is additionally stored as hex
+// (hist_hex), and read back from there, so that a replay re-executes exactly
+// the case.
+type casePlain Case
+
+type caseWire struct {
+	casePlain
+	HistHex []string `json:"hist_hex,omitempty"`
+}
+
+func (c Case) MarshalJSON() ([]byte, error) {
+	a := caseWire{casePlain: casePlain(c)}
+	for _, h := range c.Hist {
+		if !utf8.ValidString(h) {
+			a.HistHex = make([]string, len(c.Hist))
+			for i, x := range c.Hist {
+				a.HistHex[i] = hex.EncodeToString([]byte(x))
+			}
+			break
+		}
+	}
+	return json.Marshal(a)
+}
+
+func (c *Case) UnmarshalJSON(b []byte) error {
+	var a caseWire
+	if err := json.Unmarshal(b, &a); err != nil {
+		return err
+	}
+	*c = Case(a.casePlain)
+	if len(a.HistHex) > 0 {
+		c.Hist = make([]string, len(a.HistHex))
+		for i, x := range a.HistHex {
+			raw, err := hex.DecodeString(x)
+			if err != nil {
+				return err
+			}
+			c.Hist[i] = string(raw)
+		}
+	}
+	return nil
 }
 
 type finding struct{ sig, detail string }
@@ -204,11 +251,19 @@ func valueClass(vals ...int64) string {
 }
 
 func keyClass(c Cfg, keys ...string) string {
-	esc := false
+	esc, invalid := false, false
 	for _, k := range keys {
 		if strings.Contains(k, "\x1b") {
 			esc = true
 		}
+		if !utf8.ValidString(k) {
+			invalid = true
+		}
+	}
+	if invalid {
+		// a class of its own: a known finding about plain or escape-carrying keys
+		// must not hide a defect that needs undecodable bytes
+		return "invalid-utf8-in-key"
 	}
 	if esc && !c.Color {
 		return "escape-in-key-with-colour-off"
